@@ -187,12 +187,42 @@ pub fn check_expect(o: &Obs, e: &Expect, path: &str) -> Result<(), String> {
     Ok(())
 }
 
-// Message after `path:line:col: `, with the position removed.
+// Message after `path:line:col: `, with the position removed. A failure
+// below a call made from an interpolation slot carries further `l:c: `
+// prefixes inside the message (DESIGN.md §3.7); they are removed as well.
 fn msg_of(o: &Obs) -> Option<(u32, u32, String)> {
     let s = String::from_utf8_lossy(&o.err).to_string();
     let first = s.lines().next()?;
     let (l, c, rest) = take_loc(first, "case.sd")?;
-    Some((l, c, rest.to_string()))
+    Some((l, c, strip_inner_positions(rest)))
+}
+
+fn strip_inner_positions(msg: &str) -> String {
+    let mut out = String::new();
+    let mut rest = msg;
+    loop {
+        // `in '<name>': ` is kept.
+        if let Some(r) = rest.strip_prefix("in '") {
+            if let Some(i) = r.find("': ") {
+                out.push_str(&rest[..4 + i + 3]);
+                rest = &r[i + 3..];
+                continue;
+            }
+        }
+        // `<digits>:<digits>: ` is dropped.
+        let d1 = rest.bytes().take_while(|b| b.is_ascii_digit()).count();
+        if d1 > 0 && rest[d1..].starts_with(':') {
+            let r2 = &rest[d1 + 1..];
+            let d2 = r2.bytes().take_while(|b| b.is_ascii_digit()).count();
+            if d2 > 0 && r2[d2..].starts_with(": ") {
+                rest = &r2[d2 + 2..];
+                continue;
+            }
+        }
+        break;
+    }
+    out.push_str(rest);
+    out
 }
 
 #[derive(Clone, Copy, Debug, PartialEq, Eq)]
